@@ -285,7 +285,7 @@ def gen_planner_world(rng, policy):
             g.update({"release_policy": "fixed", "invocations": 2})
         if "invocations" in g:
             g["invocations"] = min(g["invocations"], 2)
-        g["deadline_variance"] = [rng.choice([50, 200, 400])] * 2
+        g["deadline_variance"] = [rng.choice([0, 2, 10, 50, 200, 400])] * 2      # exactly tight to loose
     w["workload"]["graphs"] = gs
     used = {n["work_profile"] for g in gs for n in g["graph"]}
     w["workload"]["profiles"] = [p for p in w["workload"]["profiles"] if p["name"] in used]
